@@ -39,7 +39,7 @@ Theorem C07_coherent_init : Coherent init.
 Proof. exact coherent_init. Qed.
 Print Assumptions C07_coherent_init.
 
-(* every operation of the alphabet (26 kinds of calls with all their options, copy, deepcopy, new pulse, new
+(* every operation of the alphabet (26 kinds of calls, incl. use as input of concatenate / concatenate_periodic / extend / remap, with all their options, copy, deepcopy, new pulse, new
    pulse made by extend with cached diagonalization), every requested grid, every point at which the call is
    aborted by an exception *)
 Theorem C07_coherent_step : forall st c, Coherent st -> gop_ok c = true -> Coherent (step st c).
